@@ -1,6 +1,7 @@
 package rscp
 
 import (
+	"bytes"
 	"encoding/json"
 	"fmt"
 	"math/big"
@@ -35,8 +36,8 @@ func (m *Message) UnmarshalJSONValue(jm json.RawMessage) error {
 // jsonInteger reads a json number that has to be an integer within [minimum, maximum].
 // The number is taken from its decimal text, so nothing is rounded or saturated on the way.
 func jsonInteger(jm json.RawMessage, minimum, maximum *big.Int) (*big.Int, error) {
-	var n json.Number
-	if err := json.Unmarshal(jm, &n); err != nil {
+	n, err := jsonNumber(jm)
+	if err != nil {
 		return nil, err
 	}
 	r, ok := new(big.Rat).SetString(n.String())
@@ -68,11 +69,21 @@ func jsonUnsigned(jm json.RawMessage, bits uint) (uint64, error) {
 }
 
 func jsonFloat(jm json.RawMessage, bits int) (float64, error) {
-	var n json.Number
-	if err := json.Unmarshal(jm, &n); err != nil {
+	n, err := jsonNumber(jm)
+	if err != nil {
 		return 0, err
 	}
 	return strconv.ParseFloat(n.String(), bits)
+}
+
+// jsonNumber reads a json number literal (json.Number alone would also accept a number inside a string).
+func jsonNumber(jm json.RawMessage) (json.Number, error) {
+	var n json.Number
+	if t := bytes.TrimLeft(jm, " \t\r\n"); len(t) == 0 || t[0] == '"' {
+		return n, fmt.Errorf("%s is not a number", jm)
+	}
+	err := json.Unmarshal(jm, &n)
+	return n, err
 }
 
 // unmarshalJSONScalar converts a json value to the go type of the data type, exactly or not at all.
